@@ -154,7 +154,7 @@ fn run_case(out: &mut Out, run: u64, c: &Case) {
             comp.execute(&problem, &mut state)
         }
     }));
-    let base = json!({"run": run, "op": c.op, "i": c.i, "j": c.j, "p1": c.p1, "p2": c.p2, "pe": c.pe, "sol": c.sol, "below": c.below,
+    let base = json!({"run": run, "op": c.op, "i": c.i, "j": c.j, "si": c.i, "sj": c.j, "p1": c.p1, "p2": c.p2, "pe": c.pe, "sol": c.sol, "below": c.below,
                       "ke": c.ke.iter().map(|k| *k as i64).collect::<Vec<_>>(), "buffer": c.buffer as i64, "seed": c.seed, "lr": c.lr,
                       "unit": c.unit, "off": format!("{:e}", c.off), "big": inexact as i64});
     let mut rec = base.as_object().unwrap().clone();
@@ -214,46 +214,84 @@ fn run_case(out: &mut Out, run: u64, c: &Case) {
                 out.emit(&Value::Object(rec));
                 return;
             }
-            let (bi, bj) = (c.i - 1, if c.j > 0 { Some(c.j - 1) } else { None });
-            let kept = |n: usize, o: usize| same_bits(&pop2[n], &pop[o]) && mols2[n].kinetic_energy.to_bits() == mols[o].kinetic_energy.to_bits();
-            // synthesis: both reactants disappear, everyone else keeps their relative order (bit-identical), and the product
-            // sits at some position k -- the statement does not say which slot it inherits
-            let synth_pos: Option<usize> = if c.op == "synthesis" && accepted && pop2.len() + 1 == pop.len() && mols2.len() == pop2.len() {
-                let keep: Vec<usize> = (0..pop.len()).filter(|k| *k != bi && Some(*k) != bj).collect();
-                (0..pop2.len()).find(|k| {
-                    let rest: Vec<usize> = (0..pop2.len()).filter(|n| n != k).collect();
-                    rest.len() == keep.len() && same_bits(&pop2[*k], &prod1) && rest.iter().zip(&keep).all(|(n, o)| kept(*n, *o))
-                })
-            } else {
-                None
-            };
+            // A reactant reaches the component as a COPY of the selected individual: among several individuals that are equal
+            // (solution and objective value) any one may be the molecule that is located.  The facts below are judged for the
+            // selected positions first and then for every other admissible pair; the first pair that explains the outcome is
+            // reported as the molecules that reacted (i, j), next to the selected ones (si, sj).
+            let (si, sj) = (c.i - 1, if c.j > 0 { Some(c.j - 1) } else { None });
             let shaped = mols2.len() == pop2.len();
-            let local = if !accepted {
-                true
-            } else {
-                match c.op.as_str() {
-                    "on_wall" | "intermolecular" => shaped && pop2.len() == pop.len() && (0..pop.len()).all(|k| k == bi || Some(k) == bj || kept(k, k)),
-                    "decompose" => shaped && pop2.len() == pop.len() + 1 && (0..pop.len()).all(|k| k == bi || kept(k, k)),
-                    _ => synth_pos.is_some(),
-                }
-            };
-            // energy of the participants (and the buffer) before = after
-            let part_before: f64 = c.buffer + energy(&pop[bi]) + c.ke[bi] + bj.map(|j| energy(&pop[j]) + c.ke[j]).unwrap_or(0.0);
-            let split = if !accepted || !shaped {
-                shaped
-            } else {
-                let pos_i = if c.op == "synthesis" { synth_pos.unwrap_or(0) } else { bi };
-                let mut after = buffer2 / unit + energy(&pop2[pos_i]) + mols2[pos_i].kinetic_energy / unit;
-                match c.op.as_str() {
-                    "decompose" => after += energy(&pop2[pop2.len() - 1]) + mols2[mols2.len() - 1].kinetic_energy / unit,
-                    "intermolecular" => after += energy(&pop2[bj.unwrap()]) + mols2[bj.unwrap()].kinetic_energy / unit,
-                    _ => {}
-                }
-                close(part_before, after)
-            };
             let aligned = shaped && mols2.iter().zip(&pop2).all(|(m, x)| m.best.objective() <= x.objective());
-            let pos_i = if c.op == "synthesis" && accepted { synth_pos.unwrap_or(0) } else { bi };
-            let kef = mols2.get(pos_i).map(|m| (m.kinetic_energy / unit).floor() as i64).unwrap_or(-1);
+            let judge = |bi: usize, bj: Option<usize>| -> (bool, bool, i64) {
+                let kept = |n: usize, o: usize| same_bits(&pop2[n], &pop[o]) && mols2[n].kinetic_energy.to_bits() == mols[o].kinetic_energy.to_bits();
+                // synthesis: both reactants disappear, everyone else keeps their relative order (bit-identical), and the product
+                // sits at some position k -- the statement does not say which slot it inherits
+                let synth_pos: Option<usize> = if c.op == "synthesis" && accepted && pop2.len() + 1 == pop.len() && mols2.len() == pop2.len() {
+                    let keep: Vec<usize> = (0..pop.len()).filter(|k| *k != bi && Some(*k) != bj).collect();
+                    (0..pop2.len()).find(|k| {
+                        let rest: Vec<usize> = (0..pop2.len()).filter(|n| n != k).collect();
+                        rest.len() == keep.len() && same_bits(&pop2[*k], &prod1) && rest.iter().zip(&keep).all(|(n, o)| kept(*n, *o))
+                    })
+                } else {
+                    None
+                };
+                let local = if !accepted {
+                    true
+                } else {
+                    // (the products sit where the located molecules were: that is what makes a pair "the located one")
+                    match c.op.as_str() {
+                        "on_wall" => shaped && pop2.len() == pop.len() && same_bits(&pop2[bi], &prod1) && (0..pop.len()).all(|k| k == bi || kept(k, k)),
+                        "intermolecular" => {
+                            shaped
+                                && pop2.len() == pop.len()
+                                && same_bits(&pop2[bi], &prod1)
+                                && same_bits(&pop2[bj.unwrap()], &prod2)
+                                && (0..pop.len()).all(|k| k == bi || Some(k) == bj || kept(k, k))
+                        }
+                        "decompose" => {
+                            shaped && pop2.len() == pop.len() + 1 && same_bits(&pop2[bi], &prod1) && (0..pop.len()).all(|k| k == bi || kept(k, k))
+                        }
+                        _ => synth_pos.is_some(),
+                    }
+                };
+                // energy of the participants (and the buffer) before = after
+                let part_before: f64 = c.buffer + energy(&pop[bi]) + c.ke[bi] + bj.map(|j| energy(&pop[j]) + c.ke[j]).unwrap_or(0.0);
+                let split = if !accepted || !shaped {
+                    shaped
+                } else {
+                    let pos_i = if c.op == "synthesis" { synth_pos.unwrap_or(0) } else { bi };
+                    let mut after = buffer2 / unit + energy(&pop2[pos_i]) + mols2[pos_i].kinetic_energy / unit;
+                    match c.op.as_str() {
+                        "decompose" => after += energy(&pop2[pop2.len() - 1]) + mols2[mols2.len() - 1].kinetic_energy / unit,
+                        "intermolecular" => after += energy(&pop2[bj.unwrap()]) + mols2[bj.unwrap()].kinetic_energy / unit,
+                        _ => {}
+                    }
+                    close(part_before, after)
+                };
+                let pos_i = if c.op == "synthesis" && accepted { synth_pos.unwrap_or(0) } else { bi };
+                let kef = mols2.get(pos_i).map(|m| (m.kinetic_energy / unit).floor() as i64).unwrap_or(-1);
+                (local, split, kef)
+            };
+            let equal_to = |o: usize| -> Vec<usize> { (0..pop.len()).filter(|k| *k == o || same_bits(&pop[*k], &pop[o])).collect() };
+            let mut pairs: Vec<(usize, Option<usize>)> = vec![(si, sj)];
+            for a in equal_to(si) {
+                match sj {
+                    None => pairs.push((a, None)),
+                    Some(j) => pairs.extend(equal_to(j).into_iter().filter(|b| *b != a).map(|b| (a, Some(b)))),
+                }
+            }
+            let (mut bi, mut bj) = (si, sj);
+            let (mut local, mut split, mut kef) = judge(si, sj);
+            if !(local && split) {
+                for (a, b) in pairs.into_iter().skip(1) {
+                    let (l, s, k) = judge(a, b);
+                    if l && s {
+                        (bi, bj, local, split, kef) = (a, b, l, s, k);
+                        break;
+                    }
+                }
+            }
+            rec.insert("i".into(), json!(bi + 1));
+            rec.insert("j".into(), json!(bj.map(|j| j + 1).unwrap_or(0)));
             let bf = if c.op == "on_wall" { (buffer2 / unit).ceil() as i64 } else { (buffer2 / unit).floor() as i64 };
             rec.insert("res".into(), json!(if accepted { "changed" } else { "unchanged" }));
             rec.insert("pe2".into(), json!(pe2));
